@@ -1,6 +1,14 @@
 import ZnVerif.Properties.C18
+import ZnVerif.Properties.C18Chain
 open ZnVerif.Properties.C18
 #print axioms statement_sets_line
 #print axioms push_keeps_call_sites
 #print axioms pop_removes_returned_call
 #print axioms unwind_drops_failed_calls
+
+-- chain of active calls (Properties/C18Chain.lean)
+#print axioms ZnVerif.Properties.C18Chain.ext_means
+#print axioms ZnVerif.Properties.C18Chain.chain_is_active_calls
+#print axioms ZnVerif.Properties.C18Chain.call_sites_untouched
+#print axioms ZnVerif.Properties.C18Chain.depth_never_drops
+#print axioms ZnVerif.Properties.C18Chain.failed_call_keeps_its_frame
